@@ -39,8 +39,8 @@ LEDGER = {
                     [M("mintburn,roles,acct", supply=3, accsample=2), M("create,handover,metaops,ESDTNFTTransfer", ctr=2, hs=("u0a", "u1a")), M("mintburn,create,handover,acct", hs=("u0a", "u1a"))]),
                 need=dict(role_ok=10, role_rej=5, acct_ok=3, acct_rej=2, handover_ok=1, flag_ok=3)),
     "C04": dict(profile="freeze", preds=["P04_Immobile", "P04_NoCreditWhilePaused", "P04_FlagOnly", "P04_Restores"],
-                mc=([M("ESDTNFTTransfer,MultiESDTNFTTransfer,create,flags", hs=("u0a", "u1a"), ptoks=("4e",), pshards=(0, 1), freeze=()),
-                     M("ESDTTransfer,MultiESDTNFTTransfer,flags,mintburn,issue", hs=("u0a", "u1a"), pshards=(1,), supply=3)],
+                mc=([M("ESDTNFTTransfer,MultiESDTNFTTransfer,create,flags", hs=("u0a", "u1a"), ptoks=("4e",), pshards=(0, 1), freeze=(), rejected=False),
+                     M("ESDTTransfer,MultiESDTNFTTransfer,flags,mintburn,issue", hs=("u0a", "u1a"), pshards=(1,), supply=3, rejsample=25)],
                     [M("ESDTNFTTransfer,MultiESDTNFTTransfer,create,flags", ptoks=("4e",), pshards=(0, 1), freeze=(), accsample=3), M("ESDTTransfer,MultiESDTNFTTransfer,flags,mintburn,issue", freeze=("u0a", "u1a"), pshards=(0, 1), supply=3, accsample=6)]),
                 need=dict(frozen_rej=3, paused_rej=3, flag_ok=10, refund_ok=1)),
     "C05": dict(profile="kv", preds=["P05_Protected", "P05_KVExact", "P05_Frame"],
@@ -262,6 +262,18 @@ def run_ledger(run):
     for k, n in spec["need"].items():
         need = n if run.tier == "quick" else n * 3
         run.require(total["counters"].get(k, 0) >= need, "%s=%d < %d" % (k, total["counters"].get(k, 0), need))
+
+
+def ledger_pass(run, profile, flags, ntr, steps, preds, label, seed_off=0):
+    """One pass of the random ledger driver validated against `preds` (usable by other families too)."""
+    trace = os.path.join(run.dir, "ledger-%s.ndjson" % label)
+    st = run.harness(["ledger", "-seed", str(run.seed * 100 + seed_off), "-traces", str(ntr), "-steps", str(steps), "-profile", profile, "-out", trace] + flags)
+    viols, done = run.validate(trace, preds, label="tv-" + label)
+    if done["lines"] != st["lines"]:
+        raise Infra("trace validation consumed %d of %d lines" % (done["lines"], st["lines"]))
+    record_ledger_violations(run, trace, viols)
+    run.cov["traces_validated_against_impl"] += st["traces"]
+    return st, done
 
 
 def slim_event(ev):
